@@ -35,6 +35,8 @@ pub enum CVia {
     Ip,
     Name,
     Loopback,
+    /// an address no host of the simulation owns (only with ConnectRefused)
+    Unowned,
 }
 
 /// Slot ids: the object created by op k is slot 2k; the accepted side of `Connect` k is slot 2k+1.
@@ -339,7 +341,7 @@ fn gen_ports(rng: &mut Rng) -> PortsSc {
                     continue;
                 }
                 let to = rng.usize(0, hosts - 1);
-                POp::ConnectRefused { host, to, via: if to == host { *rng.pick(&[CVia::Ip, CVia::Loopback]) } else { CVia::Ip } }
+                POp::ConnectRefused { host, to, via: if rng.chance(1, 4) { CVia::Unowned } else if to == host { *rng.pick(&[CVia::Ip, CVia::Loopback]) } else { CVia::Ip } }
             }
             12 => {
                 if streams.is_empty() {
@@ -396,7 +398,8 @@ fn gen_ports(rng: &mut Rng) -> PortsSc {
     sc
 }
 
-const REGEXES: [&str; 7] = ["^n1.*$", "n[0-9]$", ".*", "^$", "^srv-[0-9]+$", "x", "^(n2|n3|srv-4)$"];
+// (the last three are plain host names: as a pattern such a text also matches every name that contains it)
+const REGEXES: [&str; 10] = ["^n1.*$", "n[0-9]$", ".*", "^$", "^srv-[0-9]+$", "x", "^(n2|n3|srv-4)$", "n2", "n13", "srv-5"];
 
 pub fn name_of(i: u16) -> String {
     match i % 5 {
@@ -548,6 +551,7 @@ fn target_addr(sh: &PSh, to: usize, via: CVia, port: u16) -> (Option<String>, So
         CVia::Ip => (None, SocketAddr::new(host_ip(to, sh.ipv6), port)),
         CVia::Name => (Some(host_name(to)), SocketAddr::new(host_ip(to, sh.ipv6), port)),
         CVia::Loopback => (None, SocketAddr::new(loopback(sh.ipv6), port)),
+        CVia::Unowned => (None, SocketAddr::new(if sh.ipv6 { "fe80::9:9".parse().unwrap() } else { "192.168.9.9".parse().unwrap() }, port)),
     }
 }
 
